@@ -367,6 +367,8 @@ def run(ctx: Ctx):
     from ..translate import gen
     gen.regenerate(ctx, ["Constants", "LoopCensus", "Guards"])
     leanproj.check_theorems(ctx, MODULE, THEOREMS)
+    from .registry import THEOREMS_C03C
+    leanproj.check_theorems(ctx, "PyseqmVerif.Properties.C03c", THEOREMS_C03C)
     drv = leanproj.Driver()
     try:
         try:
